@@ -49,6 +49,7 @@ def concMonStep (_ : Unit) (w : List String) : Unit × String :=
     let kv := kvOf rest
     match kvNat? kv "persist", obs with
     | some persist, "ok" :: snd :: stored :: _acc :: live :: toks =>
+      if toks.contains "X" then ((), "bad C02.wire_garbled") else
       (match snd.toNat?, parseRanges? stored, toks.mapM parseTok? with
        | some sender, some storedNums, some evs =>
          let p := persist == 1
@@ -68,7 +69,8 @@ def concMonStep (_ : Unit) (w : List String) : Unit × String :=
          ((), verdict (b1 ++ b2 ++ b3))
        | _, _, _ => ((), "bad C02.unparsed_observation"))
     | some _, "stalled" :: stage :: _ => ((), "bad C02.stalled{" ++ stage ++ "}")
-    | some _, ["panic"] => ((), "bad C09.panic")
+    | some _, ["panic"] => ((), "bad C02.engine_panic")
+    | some _, ["crashed"] => ((), "bad C02.engine_crashed")
     | _, _ => ((), "bad C02.unparsed_observation")
   | _ => ((), "bad-op")
 
